@@ -26,6 +26,7 @@ class Crate:
             fn = Fn(self, f)
             self.fns[fn.path] = fn
         self.dissolved = []
+        self.inlined_into = {}     # helper path -> functions it was spliced into (callers that no longer show a call)
         if self.name == 'yarel':
             kp = os.path.join(os.path.dirname(os.path.abspath(__file__)), 'tables', 'known_fns.json')
             if os.path.exists(kp):
@@ -286,8 +287,9 @@ def _rm_term(t, lo, bo, po):
     return out
 
 
-def _splice(raw, bi, g):
-    """replace the call terminator of block bi in raw (a function's JSON) by the body of g (a Fn)"""
+def _splice(raw, bi, g, args=None, pre=None):
+    """replace the call terminator of block bi in raw (a function's JSON) by the body of g (a Fn); `args` overrides the operands bound
+    to g's parameters (closure calls pass a tuple), `pre` builds statements for the argument block from the local offset"""
     call = raw['blocks'][bi]['t']
     lo = len(raw['locals'])
     bo = len(raw['blocks'])
@@ -317,10 +319,79 @@ def _splice(raw, bi, g):
         new_blocks.append({'s': stmts, 't': t2})
     # argument passing, then jump to the callee's entry
     entry = bo + len(new_blocks)
-    argst = [{'d': {'l': lo + 1 + i}, 'r': {'rv': 'use', 'o': a}, 'sp': sp} for i, a in enumerate(call.get('args', []))]
+    argst = list(pre(lo) if pre else [])
+    bound = {st_['d']['l'] for st_ in argst}
+    argst += [{'d': {'l': lo + 1 + i}, 'r': {'rv': 'use', 'o': a}, 'sp': sp} for i, a in enumerate(args if args is not None else call.get('args', []))
+              if a is not None and (lo + 1 + i) not in bound]
     new_blocks.append({'s': argst, 't': {'t': 'goto', 'to': bo, 'sp': sp}})
     raw['blocks'] = raw['blocks'] + new_blocks
     raw['blocks'][bi] = {'s': raw['blocks'][bi]['s'], 't': {'t': 'goto', 'to': entry, 'sp': sp, 'inlined': g.path}}
+
+
+_CLOSURE_CALLS = ('std::ops::FnOnce::call_once', 'std::ops::FnMut::call_mut', 'std::ops::Fn::call')
+
+
+def _single_def(raw, l):
+    ds = [s_ for b in raw['blocks'] for s_ in b['s'] if (s_.get('d') or {}).get('l') == l and not s_['d'].get('p')]
+    # the argument block of a spliced helper assigns parameters: those count as definitions too
+    return ds[0] if len(ds) == 1 else None
+
+
+def _splice_closure_calls(crate, raw, count):
+    """inside a body that received an inlined helper: a call of a closure value whose construction is visible in the same body
+    (`helper(|f| ..)` after `helper` was spliced in) is replaced by the closure's body. Returns True if something was spliced."""
+    for bi, b in enumerate(raw['blocks']):
+        t = b['t']
+        if t['t'] != 'call' or not isinstance(t.get('f'), dict) or t['f'].get('def') not in _CLOSURE_CALLS or t['f'].get('res') or len(t.get('args', [])) != 2:
+            continue
+        # the callee: follow copies / moves / reborrows of plain locals back to the closure construction
+        o = t['args'][0]
+        l = (o.get('m') or o.get('c') or {}).get('l')
+        by_ref = False
+        path = None
+        for _ in range(8):
+            d = _single_def(raw, l) if l is not None else None
+            if d is None:
+                break
+            rr = d['r']
+            if rr.get('rv') == 'agg' and rr.get('closure'):
+                path = rr['closure']
+                break
+            if rr.get('rv') == 'use':
+                src = rr['o'].get('m') or rr['o'].get('c')
+                if not src or src.get('p'):
+                    break
+                l = src['l']
+            elif rr.get('rv') == 'ref' and not rr['p'].get('p'):
+                by_ref = True
+                l = rr['p']['l']
+            else:
+                break
+        g = crate.fns.get(path) if path else None
+        if g is None or count.get(path, 0) >= 6:
+            continue
+        # the argument tuple
+        tl = (t['args'][1].get('m') or t['args'][1].get('c') or {}).get('l')
+        td = _single_def(raw, tl) if tl is not None else None
+        if td is None or td['r'].get('rv') != 'agg' or not td['r'].get('tuple'):
+            if g.argc > 1:
+                continue
+            ops = []
+        else:
+            ops = td['r']['ops']
+        if len(ops) != g.argc - 1:
+            continue
+        env_ty = crate.types[g.raw['locals'][1]['t']]
+        wants_ref = env_ty.get('k') == 'ref'
+        arg0 = t['args'][0]
+        pre = None
+        if wants_ref and not by_ref:
+            holder = (arg0.get('m') or arg0.get('c'))
+            pre = (lambda lo, holder=holder, sp=t.get('sp'): [{'d': {'l': lo + 1}, 'r': {'rv': 'ref', 'm': True, 'p': {'l': holder['l']}}, 'sp': sp}])
+        _splice(raw, bi, g, args=[arg0] + list(ops), pre=pre)
+        count[path] = count.get(path, 0) + 1
+        return True
+    return False
 
 
 def inline_new_helpers(crate, known):
@@ -348,7 +419,10 @@ def inline_new_helpers(crate, known):
     # ... or crate-visible with exactly one call site: bookkeeping moved next to the data it touches (e.g. a new ObjFiber method called
     # from the one Vm function it was cut out of). Generated accessors and new natives have no or several direct call sites.
     new = {p_ for p_, f in crate.fns.items() if f.kind != 'Closure' and p_ not in known and
-           (module_private(f) or ((f.vis or '').startswith('Restricted(') and direct_call_sites(p_) == 1))}
+           (module_private(f) or direct_call_sites(p_) == 1)}
+    # a new *public* function with a single internal call site (an API cut out of the function that now delegates to it) is spliced
+    # into that caller as well, but stays a unit of its own: it can also be called from outside
+    keep = {p_ for p_ in new if (crate.fns[p_].vis or '') == 'Public'}
     # a recursive function is a unit of its own (and a fact the recursion rules must see), never a helper to dissolve
     def direct_callees(f):
         return {(b['t']['f'].get('res') or b['t']['f'].get('def')) for b in f.raw['blocks'] if b['t']['t'] == 'call' and isinstance(b['t'].get('f'), dict)}
@@ -394,11 +468,16 @@ def inline_new_helpers(crate, known):
                 _splice(raw, bi, originals[cal])
                 count[cal] = count.get(cal, 0) + 1
                 dissolved.setdefault(cal, path)
+                crate.inlined_into.setdefault(cal, set()).add(path)
                 progress = True
                 break
+            if not progress and raw is not None and _splice_closure_calls(crate, raw, count):
+                progress = True
         if raw is not None:
             crate.fns[path] = Fn(crate, raw)
     for cal, first_caller in dissolved.items():
+        if cal in keep:
+            continue
         # the helper lives on inside its callers; its closures belong to the first of them
         crate.fns.pop(cal, None)
         for g in crate.fns.values():
